@@ -1,6 +1,7 @@
 package main
 
 import (
+	"errors"
 	"fmt"
 	"math"
 	"runtime/metrics"
@@ -77,11 +78,14 @@ type Op struct {
 	TextB    []byte   `json:"textb,omitempty"` // raw bytes (parse inputs that are not valid UTF-8)
 	ArgNames []string `json:"argnames,omitempty"`
 	WithMap  bool     `json:"withmap,omitempty"`
-	Args     []Arg    `json:"args,omitempty"`
-	Consume  int      `json:"consume,omitempty"` // -1 deep (default via normalise), 0 drop, k prefix
-	Store    int      `json:"store,omitempty"`   // handle slot + 1 (0 = none)
-	Observe  bool     `json:"observe,omitempty"` // pure observation op (C09)
-	Ref      int      `json:"ref,omitempty"`     // force: index of the eval op (same client) whose stored result is consumed now
+	// entry point used by a gen operation: 0 Generate | 1 GenerateWithMap | 2 GenerateFromString | 3 CreateAst
+	// (2 and 3 yield nothing that the script could evaluate later)
+	Entry   int   `json:"entry,omitempty"`
+	Args    []Arg `json:"args,omitempty"`
+	Consume int   `json:"consume,omitempty"` // -1 deep (default via normalise), 0 drop, k prefix
+	Store   int   `json:"store,omitempty"`   // handle slot + 1 (0 = none)
+	Observe bool  `json:"observe,omitempty"` // pure observation op (C09)
+	Ref     int   `json:"ref,omitempty"`     // force: index of the eval op (same client) whose stored result is consumed now
 }
 
 func (o *Op) text() string {
@@ -147,6 +151,47 @@ type evalFn func(args []value.Value) (value.Value, error)
 
 type genI interface {
 	generate(text string, args []string, withMap bool) (evalFn, error)
+	// other entry points into parser and generator (nothing to evaluate afterwards)
+	generateVia(entry int, text string, args []string) error
+}
+
+var errNotEvaluable = errors.New("generated through an entry point the script does not evaluate")
+
+func viaEntry[V any](g *funcGen.FunctionGenerator[V], entry int, text string, args []string) error {
+	switch entry {
+	case 1:
+		name := "m"
+		if len(args) > 0 {
+			name = args[0]
+		}
+		f, _, err := g.GenerateWithMap(text, name)
+		if err == nil && f == nil {
+			return errNoResult
+		}
+		return err
+	case 2:
+		f, _, err := g.GenerateFromString(text, args...)
+		if err == nil && f == nil {
+			return errNoResult
+		}
+		return err
+	default:
+		a, err := g.CreateAst(text, nil)
+		if err == nil && a == nil {
+			return errNoResult
+		}
+		return err
+	}
+}
+
+func (g valueGen) generateVia(entry int, text string, args []string) error {
+	return viaEntry(g.fg.FunctionGenerator, entry, text, args)
+}
+func (g floatGen) generateVia(entry int, text string, args []string) error {
+	return viaEntry(g.fg, entry, text, args)
+}
+func (g boolGen) generateVia(entry int, text string, args []string) error {
+	return viaEntry(g.fg, entry, text, args)
 }
 
 type valueGen struct{ fg *value.FunctionGenerator }
@@ -355,7 +400,15 @@ func (r *runner) doOp(op *Op, handles []value.Value) (out Outcome) {
 			out.Skipped = true
 			break
 		}
-		f, err := r.gens[op.Gen].generate(op.text(), op.ArgNames, op.WithMap)
+		var f evalFn
+		var err error
+		if op.Entry > 0 {
+			if err = r.gens[op.Gen].generateVia(op.Entry, op.text(), op.ArgNames); err == nil {
+				f = func([]value.Value) (value.Value, error) { return nil, errNotEvaluable }
+			}
+		} else {
+			f, err = r.gens[op.Gen].generate(op.text(), op.ArgNames, op.WithMap)
+		}
 		if err != nil {
 			out.Err = err.Error()
 			if err == errNoResult {
@@ -457,6 +510,7 @@ func simConfig(sim SimCfg, b Budgets) simrt.Config {
 		PCTDepth: sim.PCTDepth, PCTLen: sim.PCTLen, Stalls: sim.Stalls,
 		MaxYields: b.MaxYields, MaxDecs: b.MaxDecs, MaxTime: b.MaxTime,
 		GraceYields: b.GraceYields, GraceTime: b.GraceTime, GraceDecs: b.GraceDecs, KeepLog: b.KeepLog,
+		YieldNs: 20,
 	}
 	if sim.UseDecs {
 		c.Policy = "replay"
